@@ -219,38 +219,41 @@ func (e *Engine) lookupIntercept(fn *ssa.Function, name string) Intercept {
 
 // Path is one execution along a decision log.
 type Path struct {
-	eng         *Engine
-	ds          *dstream
-	pc          []*smt.T
-	asserted    int
-	fresh       bool
-	solver      *smt.Solver
-	globals     map[*ssa.Global]*Value
-	inited      map[*ssa.Package]bool
-	symSeq      map[string]int
-	inputs      []Input
-	steps       int64
-	depth       int
-	redirects   map[string]Value
-	inRedirect  map[string]bool
-	ghost       map[string]interface{}
-	hashApps    []*hashApp
-	tasks       []*Task
-	cur         *Task
-	dead        bool
-	endSignal   interface{}
-	chanSeq     int
-	eventSeq    int
-	preempt     int
-	curFrame    *Frame
-	memo        map[string]*memoEntry
-	allVars     []*smt.T
-	model       map[string]*big.Int
-	summarize   map[string]bool
-	inSummaryOf map[string]bool
-	unknown     bool
-	clock       *smt.T
-	trace       []string
+	eng          *Engine
+	ds           *dstream
+	pc           []*smt.T
+	asserted     int
+	fresh        bool
+	solver       *smt.Solver
+	globals      map[*ssa.Global]*Value
+	inited       map[*ssa.Package]bool
+	symSeq       map[string]int
+	inputs       []Input
+	steps        int64
+	depth        int
+	redirects    map[string]Value
+	inRedirect   map[string]bool
+	ghost        map[string]interface{}
+	hashApps     []*hashApp
+	tasks        []*Task
+	cur          *Task
+	dead         bool
+	endSignal    interface{}
+	chanSeq      int
+	eventSeq     int
+	preempt      int
+	turnSched    bool
+	clock0       *smt.T
+	clockHorizon *smt.T
+	curFrame     *Frame
+	memo         map[string]*memoEntry
+	allVars      []*smt.T
+	model        map[string]*big.Int
+	summarize    map[string]bool
+	inSummaryOf  map[string]bool
+	unknown      bool
+	clock        *smt.T
+	trace        []string
 }
 
 func (p *Path) freshName(base string) (string, int) {
